@@ -8,9 +8,12 @@ impl VRepo {
     pub fn dbe(&self) -> (r: &VBe) ensures *r == self.be, { &self.be }
 }
 // the option structs, reduced to the fields the guards read
-pub struct VRewriteOptions { pub forget: bool }
-pub struct VRepairSnapshotsOptions { pub delete: bool }
-pub struct VConfigOptions { pub set_append_only: Option<bool> }
+// option structs: RewriteOptions, RepairSnapshotsOptions and ConfigOptions are EXTRACTED from /repo
+// (see units); only the types of fields the guards never read are stubs:
+pub struct StringList { pub _opaque: u64 }
+pub struct SnapshotModification { pub _opaque: u64 }
+pub struct ByteSize(pub u64);
+pub enum Chunker { Rabin, FixedSize }
 
 pub open spec fn is_append_only(repo: &VRepo) -> bool { repo.cfg.append_only == Some(true) }
 
